@@ -341,6 +341,44 @@ let do_load (args : string list) : string =
      | M.Panic _ -> "PANIC")
   | _ -> "BADCASE"
 
+(* ------------------------------------------------------------ disassembler (token level) *)
+let hex_of_bytes (l : n list) : string = if l = [] then "-" else String.concat "" (List.map hex2_of_n l)
+let hex_of_string (s : string) : string =
+  if s = "" then "-" else String.concat "" (List.map (fun c -> Printf.sprintf "%02x" (Char.code c)) (List.init (String.length s) (String.get s)))
+let z_text (z : M.z) : string =
+  match z with
+  | M.Z0 -> "0"
+  | M.Zpos p -> hex_of_n (M.Npos p)
+  | M.Zneg p -> "-" ^ hex_of_n (M.Npos p)
+let dtok_text (t : M.dtok) : string =
+  match t with
+  | M.DId v -> "%" ^ hex_of_n v
+  | M.DEq -> "="
+  | M.DOp nm -> "Op" ^ string_of_coq nm
+  | M.DName nm -> "N" ^ hex_of_string (string_of_coq nm)
+  | M.DNum z -> "#" ^ z_text z
+  | M.DF32 b -> "F32:" ^ hex_of_n b
+  | M.DF64 b -> "F64:" ^ hex_of_n b
+  | M.DStr b -> "S" ^ hex_of_bytes b
+let dline_text (l : M.dtok list) : string = String.concat "," (List.map dtok_text l)
+let do_libdis (args : string list) : string =
+  match args with
+  | [b] ->
+    let bytes = bytes_of_hex b in
+    (match M.dis_case bytes with
+     | None -> "NOLOAD"
+     | Some ((hd, lines), panics) ->
+       if panics then "PANIC" else
+       let own = (match M.dis_own_case bytes with Some l -> l | None -> []) in
+       Printf.sprintf "OK H=%s T=%s L=%s I=%s"
+         (match hd with
+          | None -> "-"
+          | Some h -> String.concat "." (List.map hex_of_n [h.M.dh_major; h.M.dh_minor; h.M.dh_tool; h.M.dh_bound]))
+         (match hd with None -> "-" | Some h -> hex_of_string (string_of_coq (M.tool_name h.M.dh_tool)))
+         (if lines = [] then "-" else String.concat ";" (List.map dline_text lines))
+         (if own = [] then "-" else String.concat ";" (List.map dline_text own)))
+  | _ -> "BADCASE"
+
 (* ------------------------------------------------------------ builder *)
 let berr_name (e : M.berr) : string =
   match e with
@@ -481,6 +519,7 @@ let () =
         | "feed" :: r -> do_feed r
         | "bld" :: r -> do_bld r
         | "load" :: r -> do_load r
+        | "libdis" :: r -> do_libdis r
         | _ -> "BADCASE" in
       print_string out; print_char '\n'
     done
